@@ -163,7 +163,7 @@ func c05(c *core.Check) {
 	// ---- R3 specificity constants
 	r3 := c.Rule("R3", "Specificity() of each simple selector kind is the Selectors-4 constant: type (0,0,1); class, attribute and pseudo-class (0,1,0); id (1,0,0); a pseudo-element adds (0,0,1); :is/:not/:has take the maximum (by Less) of their arguments; compound and combined selectors add", 8)
 	specT := p.Obj(pkg, "Specificity")
-	wantSpec := map[string][3]int64{"tagSelector": {0, 0, 1}, "classSelector": {0, 1, 0}, "idSelector": {1, 0, 0}, "attrSelector": {0, 1, 0}, "abstractPseudoClass": {0, 1, 0}, "neverMatchSelector": {0, 0, 0}}
+	wantSpec := map[string][3]int64{"tagSelector": {0, 0, 1}, "classSelector": {0, 1, 0}, "idSelector": {1, 0, 0}, "attrSelector": {0, 1, 0}, "abstractPseudoClass": {0, 1, 0}, "neverMatchSelector": {0, 1, 0}}
 	var tnames []string
 	for n := range wantSpec {
 		tnames = append(tnames, n)
@@ -491,6 +491,37 @@ func c05(c *core.Check) {
 
 	// ---- R10 CSS white space in word matching; element type comparison
 	r10 := c.Rule("R10", "class and ~= matching split the attribute on the five CSS white space characters only (space, tab, LF, CR, FF); the *-of-type pseudo-classes compare element names (Node.Data), since the atom of every unknown element is 0", 5)
+	// :empty ignores document white space only (Selectors 4): the text of a child is trimmed with the five characters,
+	// never with strings.TrimSpace (Unicode white space: a no-break space would make an element empty)
+	if em := p.Method(pkg, "emptyElementPseudoClassSelector", "Match"); em == nil {
+		r10.Anchor("css/selector.emptyElementPseudoClassSelector.Match")
+	} else {
+		nTrim := 0
+		core.Instrs(em, func(in ssa.Instruction) {
+			call, ok := in.(*ssa.Call)
+			if !ok || call.Call.StaticCallee() == nil {
+				return
+			}
+			full := call.Call.StaticCallee().String()
+			switch full {
+			case "strings.TrimSpace", "strings.Fields", "unicode.IsSpace":
+				nTrim++
+				r10.Fail(":empty ignores document white space only", p.Pos(call.Pos()), full+" removes Unicode white space: <p>&nbsp;</p> would match :empty")
+			case "strings.Trim":
+				nTrim++
+				set, isK := core.ConstStr(call.Call.Args[1])
+				chars := map[rune]bool{}
+				for _, ch := range set {
+					chars[ch] = true
+				}
+				okSet := isK && len(chars) == 5 && chars[' '] && chars['\t'] && chars['\n'] && chars['\r'] && chars['\f']
+				r10.Cond(okSet, ":empty ignores document white space only", p.Pos(call.Pos()), "trimmed with space, tab, LF, CR, FF", fmt.Sprintf("trimmed with %q, document white space is space, tab, LF, CR and FF", set))
+			}
+		})
+		if nTrim == 0 {
+			r10.Unknown(":empty ignores document white space only", p.Pos(em.Pos()), "no trimming call found in the matcher of :empty")
+		}
+	}
 	if mi := p.Fn(pkg, "matchInclude"); mi != nil {
 		info := p.Info(pkg)
 		init := p.VarInit(pkg, "spaceAsciiSet")
